@@ -912,7 +912,7 @@ def run(tier, seed, replay=None):
     ctx.assumptions = [
         "coq/Model/C08Model.v is a hand transcription of the anchored methods on id-carrying rose trees; tied by this correspondence run",
         "edge lengths are multiples of 2^-10 (binary64 + is exact on them); float rounding is outside the model",
-        "the library's stack iterators visit the post-order of the tree as it was at loop entry (children are pushed before a visited node's removal can change them); the loops are modelled over that list",
+        "the loops over lazy iterators are modelled over the post-order list at loop entry; that this is what the generated iterator machine (Gen/Traversals.v) interleaved with the mutating body yields is now a theorem (lazy_postorder_loop_is_list_loop); trusted there: the translator's rendering of the generator and that the body runs between two resumptions",
         "a new node of an extracted tree is named by its extraction_source in the model; the harness names it by pre-order position",
         "filter functions are functions of node identity only",
     ]
@@ -924,7 +924,7 @@ def run(tier, seed, replay=None):
         v = oracle(case, obs)
         print("oracle:", v)
         return 1 if v and v[1] not in ctx.known else 0
-    ok = core.proof_stage(ctx, ["Props/C08.vo"])
+    ok = core.proof_stage(ctx, ["Props/C08.vo"], gen_needed=("Traversals",))
     if not ok:
         core.broken_proof(ctx, search)
     rng = ctx.rng
